@@ -40,4 +40,14 @@ def Decoder.decode_literal (literal : PLit) : M Jelly.DecState (String × Option
       datatype := (← zoom (·.datatypes) (fun s v => { s with datatypes := v }) (LookupDecoder.decode_datatype_term_index (← liftE (optGet literal.datatype))))
   return (literal.lex, language, datatype)
 
+/-- `Decoder.validate_stream_options` (pyjelly/parse/decode.py:259) -/
+def Decoder.validate_stream_options (options : Options) : M Jelly.DecState Unit := do
+  pyAssert ((← get).opts.physical == options.physicalType)
+  pyAssert ((← get).opts.logical == options.logicalType)
+  pyAssert ((← get).opts.streamName == options.streamName)
+  pyAssert (decide ((← get).opts.version ≥ options.version))
+  pyAssert ((← get).opts.maxPrefixes == options.maxPrefixes)
+  pyAssert ((← get).opts.maxDatatypes == options.maxDatatypes)
+  pyAssert ((← get).opts.maxNames == options.maxNames)
+
 end Jelly.Gen
